@@ -1,7 +1,7 @@
 SPECIFICATION Spec
 CONSTANTS
   ValSets <- MCValSets
-  Heights = {2, 3}
+  Heights = {2, 3, 4}
   Times = {1, 3}
   MaxNow = 4
   TP = 3
